@@ -4,7 +4,7 @@
 mode=$1; max=${2:-1500}
 bin=/verif/fuzz-oracle/target/x86_64-unknown-linux-gnu/release/oracle
 base=/verif/.scratch/oracle-corpus/$mode; out=$base/merged; rm -rf $out; mkdir -p $out /verif/corpus/oracle
-VERIF_ORACLE_MODE=$mode VERIF_SCRATCH=/dev/shm/oracle-dev-$mode-m RUST_BACKTRACE=0 $bin -merge=1 -max_len=200 -timeout=120 -rss_limit_mb=4096 $out $base/seeds $base/job* > $base/merge.log 2>&1
+VERIF_ORACLE_MODE=$mode VERIF_SCRATCH=/dev/shm/oracle-dev-$mode-m RUST_BACKTRACE=0 $bin -merge=1 -max_len=200 -timeout=120 -rss_limit_mb=4096 $out $base/seeds $(ls -d $base/job*/) > $base/merge.log 2>&1
 rm -rf /dev/shm/oracle-dev-$mode-m
 python3 - "$mode" "$max" <<'P'
 import sys,os,binascii
